@@ -125,13 +125,15 @@ let handle (w : string list) : string =
   | ["t3rsp"; code; sendidm; idm; rsp] ->
       show_res hex_of_bytes (t3_rsp_any (zi code) (sendidm = "1") (bytes_of_hex idm) (bytes_of_hex rsp))
   | ["isodep"; miu; retry; pn; cmd; script] ->
-      (* the repaired ISO-DEP reader against a scripted responder (past the end: silence) *)
+      (* IsoDepInitiator.exchange with all repairs against a script of clf.exchange outcomes (past the end: silence):
+         result, number of clf.exchange calls, block number afterwards *)
       let k = { miu = zi miu; n_nak = zi retry; n_ack = zi retry; fix_wtx_try = true; fix_wtx_chain = true; fix_rack = true } in
-      let sc = Array.of_list (script_of script) in
-      let rec to_int = function O -> 0 | S n -> 1 + to_int n in
-      let s n = let i = to_int n in if i < Array.length sc then sc.(i) else ATimeout in
+      (* run_script_any is dep_exchange with explicit fuel; one script entry is consumed per round and past the end of the
+         script the card is silent, so length + 16 rounds suffice (too little fuel would show as "hang", never as a pass) *)
+      let sc = script_of script in
       let c = bytes_of_hex cmd in
-      show_res hex_of_bytes (run_stream_any (nat_of_int (Array.length sc + 40)) k c (pcd_start k c (zi pn)) s O)
+      let ((r, n), pn') = run_script_any (nat_of_int (List.length sc + 16)) k c (pcd_start k c (zi pn)) sc (z_of_int 65538) Z0 in
+      show_res (fun d -> "ok:" ^ (if d = [] then "" else hex_of_bytes d)) r ^ " n=" ^ zs n ^ " pni=" ^ zs pn'
   | _ -> "?unknown-command"
 
 let () =
